@@ -6,6 +6,7 @@ import (
 	"encoding/hex"
 	"encoding/json"
 	"fmt"
+	"math/big"
 	"os"
 	"path/filepath"
 	"sort"
@@ -73,17 +74,17 @@ type Ctx struct {
 }
 
 type result struct {
-	Evaluations int            `json:"evaluations"`
-	Distinct    int            `json:"distinct_nontrivial"`
-	Rule        string         `json:"rule"`
-	Samples     []any          `json:"samples"`
-	Dist        map[string]int `json:"distribution"`
-	Failures    []Failure      `json:"failures"`
-	CasesFiles  []string       `json:"cases_files"`
-	ModelCases  int            `json:"model_cases"`
+	Evaluations int                       `json:"evaluations"`
+	Distinct    int                       `json:"distinct_nontrivial"`
+	Rule        string                    `json:"rule"`
+	Samples     []any                     `json:"samples"`
+	Dist        map[string]int            `json:"distribution"`
+	Failures    []Failure                 `json:"failures"`
+	CasesFiles  []string                  `json:"cases_files"`
+	ModelCases  int                       `json:"model_cases"`
 	CaseIndex   map[string]map[string]any `json:"case_index"`
-	Exhaustive  bool           `json:"exhaustive"`
-	Extra       map[string]any `json:"extra"`
+	Exhaustive  bool                      `json:"exhaustive"`
+	Extra       map[string]any            `json:"extra"`
 }
 
 func (c *Ctx) Quick() bool { return c.Tier != "thorough" }
@@ -96,10 +97,10 @@ func (c *Ctx) Pick(q, t int) int {
 	return t
 }
 
-func (c *Ctx) Rule(s string)        { c.res.Rule = s }
-func (c *Ctx) Exhaustive(b bool)    { c.res.Exhaustive = b }
-func (c *Ctx) Extra(k string, v any) { c.res.Extra[k] = v }
-func (c *Ctx) Count(k string)       { c.dist[k]++ }
+func (c *Ctx) Rule(s string)          { c.res.Rule = s }
+func (c *Ctx) Exhaustive(b bool)      { c.res.Exhaustive = b }
+func (c *Ctx) Extra(k string, v any)  { c.res.Extra[k] = v }
+func (c *Ctx) Count(k string)         { c.dist[k]++ }
 func (c *Ctx) CountN(k string, n int) { c.dist[k] += n }
 
 // Eval records one evaluated case; key is the canonical form of the case used to
@@ -287,15 +288,44 @@ func Bytes(b []byte) string {
 	return List(s)
 }
 
-// HexBytes prints a byte string as the dense literal (hb n 0x...) of Cases.v.
+// HexBytes prints a byte string as the dense literal (ub n [..]%uint63) of Cases.v:
+// primitive 63-bit integers carrying 7 bytes each (parsed ~10x faster than lists of Z).
 func HexBytes(b []byte) string {
 	if len(b) == 0 {
-		return "(hb 0 0)"
+		return "(ub 0 [])"
 	}
 	if len(b) <= 2 {
 		return Bytes(b)
 	}
-	return fmt.Sprintf("(hb %d 0x%s)", len(b), hex.EncodeToString(b))
+	var sb strings.Builder
+	fmt.Fprintf(&sb, "(ub %d [", len(b))
+	for i := 0; i < len(b); i += 7 {
+		j := i + 7
+		if j > len(b) {
+			j = len(b)
+		}
+		if i > 0 {
+			sb.WriteString("; ")
+		}
+		sb.WriteString("0x")
+		sb.WriteString(hex.EncodeToString(b[i:j]))
+	}
+	sb.WriteString("]%uint63)")
+	return sb.String()
+}
+
+// BigZ prints an arbitrary-size integer; large magnitudes use the (zb neg n [..]%uint63) literal.
+func BigZ(v *big.Int) string {
+	if v.BitLen() < 62 {
+		if v.Sign() < 0 {
+			return "(" + v.String() + ")"
+		}
+		return v.String()
+	}
+	mag := new(big.Int).Abs(v).Bytes()
+	lit := HexBytes(mag)
+	// lit = (ub n [...]%uint63)
+	return fmt.Sprintf("(zb %s %s", Bool(v.Sign() < 0), lit[4:])
 }
 
 func Opt(s *string) string {
